@@ -14,7 +14,7 @@
 From Coq Require Import List NArith Bool.
 From Mila Require Import Lib.Bytes Lib.Machine Model.Pixel Model.Etc1 Model.TexCommon Model.TexFormat
   Model.Ctpk Model.Bch Model.Cgfx Model.Tpl
-  Proofs.TexBase Proofs.TexMagic Proofs.TexCtpk Proofs.TexTpl Proofs.TexBch Proofs.TexCgfx Proofs.TexDecode Proofs.TexStatements.
+  Proofs.TexBase Proofs.TexMagic Proofs.TexCtpk Proofs.TexTpl Proofs.TexBch Proofs.TexCgfx Proofs.TexDecode Proofs.TexStatements Proofs.TexCgfxBackward.
 Import ListNotations.
 Local Open Scope N_scope.
 
@@ -57,6 +57,19 @@ Proof. exact read_bch_supported. Qed.
 Theorem C20_read_cgfx_supported : forall m f texs, conforms_cgfx f texs -> Forall supported3ds texs ->
   read_cgfx m f = Ok (map decoded texs).
 Proof. exact read_cgfx_supported. Qed.
+
+(* CGFX offsets are self-relative modulo 2^32: a payload, name or TXOB may lie in FRONT of the field that refers to it
+   (conforms_cgfx admits it; C20_read_cgfx / C20_prefix_cgfx cover it in both modes).  Finding F23: before the repair the
+   sum was a plain u32 `+`, which panics in a checked build on such a file and wraps to the right answer in release. *)
+Theorem C20_cgfx_backward_F23 :
+  conforms_cgfx back_cgfx [back_tex] /\
+  read_cgfx_unrepaired Checked back_cgfx = Panic POverflow /\
+  read_cgfx_unrepaired Wrapping back_cgfx = Ok [decoded back_tex].
+Proof. exact cgfx_backward_unrepaired_panics. Qed.
+Example C20_cgfx_backward_example :
+  (cgfx_payload_at back_cgfx 0 161 /\ selfrel back_cgfx 40 301 /\ selfrel back_cgfx (301 + 28 + 12) 225 /\ 161 < 225) /\
+  read_cgfx Checked back_cgfx = Ok [decoded back_tex] /\ read_cgfx Wrapping back_cgfx = Ok [decoded back_tex].
+Proof. split; [exact back_is_backward | exact back_read]. Qed.
 
 (* ---------------------------------------------------------------- wrong magic number (BCH, CGFX, TPL) *)
 Theorem C20_bad_magic_bch : forall m f v, u32_at LE f 0 = Some v -> v <> BCH_MAGIC -> read_bch m f = Err EBadMagic.
